@@ -46,6 +46,15 @@ type microCtx struct {
 	deliv    map[string][]int // id -> attempts of every delivery seen, in order
 	delivTo  map[string][]string
 	delivBody map[string]string
+	delivAt   map[string][]int64 // arrival time (virtual ns) of each delivery
+	touchOK   map[string]int64   // id -> virtual time of the last accepted TOUCH
+	touchBy   map[string]string  // id -> connection whose TOUCH was accepted
+	reqOK     map[string]int     // id -> accepted REQs
+	anomalies []string           // internal-structure diagnostics (not violations)
+	sendsPre  uint64         // sum of the consumers' message_count before the window
+	sendsWin  uint64         // sends performed while the window was open
+	preWin    map[string]int // deliveries per id before the window opened
+	postWin   map[string]int // ... when it closed
 	finOK    map[string]bool
 	discard  bool // an empty/delete of the channel or topic completed
 	emptied  bool
@@ -79,6 +88,7 @@ func (x *microCtx) note() {
 				x.deliv[f.ID] = append(x.deliv[f.ID], f.Attempts)
 				x.delivTo[f.ID] = append(x.delivTo[f.ID], c.Name)
 				x.delivBody[f.ID] = f.Body
+				x.delivAt[f.ID] = append(x.delivAt[f.ID], f.At)
 			}
 		}
 	}
@@ -128,22 +138,39 @@ var microOps = map[string]func(x *microCtx) string{
 	},
 	"req1": func(x *microCtx) string {
 		_, err := x.prot.REQ(x.k1, [][]byte{b("REQ"), b(x.m1), b("0")})
+		if err == nil {
+			x.reqOK[x.m1]++
+		}
 		return errStr(err)
 	},
 	"req1d": func(x *microCtx) string {
 		_, err := x.prot.REQ(x.k1, [][]byte{b("REQ"), b(x.m1), b("2000")})
+		if err == nil {
+			x.reqOK[x.m1]++
+		}
 		return errStr(err)
 	},
 	"req2": func(x *microCtx) string {
 		_, err := x.prot.REQ(x.k2, [][]byte{b("REQ"), b(x.m1), b("0")})
+		if err == nil {
+			x.reqOK[x.m1]++
+		}
 		return errStr(err)
 	},
 	"touch1": func(x *microCtx) string {
 		_, err := x.prot.TOUCH(x.k1, [][]byte{b("TOUCH"), b(x.m1)})
+		if err == nil {
+			x.touchBy[x.m1] = "c1"
+			x.touchOK[x.m1] = vrt.Now()
+		}
 		return errStr(err)
 	},
 	"touch2": func(x *microCtx) string {
 		_, err := x.prot.TOUCH(x.k2, [][]byte{b("TOUCH"), b(x.m1)})
+		if err == nil {
+			x.touchBy[x.m1] = "c2"
+			x.touchOK[x.m1] = vrt.Now()
+		}
 		return errStr(err)
 	},
 	"scan": func(x *microCtx) string {
@@ -307,6 +334,7 @@ func (x *microCtx) setup() string {
 				x.deliv[f.ID] = append(x.deliv[f.ID], f.Attempts)
 				x.delivTo[f.ID] = append(x.delivTo[f.ID], c.Name)
 				x.delivBody[f.ID] = f.Body
+				x.delivAt[f.ID] = append(x.delivAt[f.ID], f.At)
 				return f.ID
 			}
 		}
@@ -357,7 +385,7 @@ func (x *microCtx) setup() string {
 
 // RunMicro is the scenario body (thread 0 of a controlled execution).
 func RunMicro(spec MicroSpec) vx.Out {
-	x := &microCtx{spec: spec, deliv: map[string][]int{}, delivTo: map[string][]string{}, finOK: map[string]bool{}, delivBody: map[string]string{}}
+	x := &microCtx{spec: spec, deliv: map[string][]int{}, delivTo: map[string][]string{}, finOK: map[string]bool{}, delivBody: map[string]string{}, delivAt: map[string][]int64{}, touchOK: map[string]int64{}, touchBy: map[string]string{}, reqOK: map[string]int{}}
 	if e := x.setup(); e != "" {
 		if x.w != nil {
 			x.w.Release()
@@ -368,6 +396,11 @@ func RunMicro(spec MicroSpec) vx.Out {
 	w := x.w
 	w.Quiesce()
 	x.note()
+	x.preWin = map[string]int{}
+	for id, as := range x.deliv {
+		x.preWin[id] = len(as)
+	}
+	x.sendsPre = x.totalSends()
 
 	// ---- the window
 	results := make([]string, len(spec.Ops))
@@ -387,10 +420,15 @@ func RunMicro(spec MicroSpec) vx.Out {
 	wg.Wait()
 	vrt.Quiesce()
 	vrt.Window(false)
-	for _, c := range w.Conns {
-		c.Poll()
-	}
+	x.sendsWin = x.totalSends() - x.sendsPre
+	// frames still sitting in a consumer's output buffer are flushed by its output-buffer
+	// timer (250 ms); nothing else is due in that time (the scan loop is not running yet)
+	w.Sleep(300 * time.Millisecond)
 	x.note()
+	x.postWin = map[string]int{}
+	for id, as := range x.deliv {
+		x.postWin[id] = len(as)
+	}
 
 	obs := strings.Join(results, " ")
 	// ---- state right after the window
@@ -398,13 +436,16 @@ func RunMicro(spec MicroSpec) vx.Out {
 		d := DumpChannel(c)
 		obs += fmt.Sprintf(" | depth=%d infl=%d pq=%d def=%d defpq=%d", d.Depth, len(d.InFlight), d.PQLen, len(d.Deferred), d.DefPQLen)
 		if s := CheckChannelStructure(c); s != "" {
-			x.bad("C02 C04 structure after window: "+structClass(s), "%s\nchannel: %+v", s, d)
+			x.anomalies = append(x.anomalies, "after window: "+structClass(s))
 		}
 		x.checkClientCounts("after window")
 	}
 	x.drain()
 	x.oracle()
 	obs += " | deliv=" + x.delivSummary()
+	if len(x.anomalies) > 0 {
+		obs += " | ANOMALY " + strings.Join(x.anomalies, ",")
+	}
 	return vx.Out{Obs: obs, Viol: x.viol}
 }
 
@@ -487,6 +528,7 @@ func (x *microCtx) drain() {
 				x.deliv[f.ID] = append(x.deliv[f.ID], f.Attempts)
 				x.delivTo[f.ID] = append(x.delivTo[f.ID], c.Name)
 				x.delivBody[f.ID] = f.Body
+				x.delivAt[f.ID] = append(x.delivAt[f.ID], f.At)
 				if !c.Closed {
 					c.Cmd("FIN "+f.ID, nil)
 				}
@@ -529,10 +571,10 @@ func (x *microCtx) oracle() {
 	c := x.chanObj()
 	discardOp := hasOp("empty_ch", "del_ch", "del_topic")
 	if x.m1 != "" && x.finOK[x.m1] {
-		// deliveries of m1 recorded before the window: from setup
-		pre := map[string]int{"inflight": 1, "expired": 1, "requeued": 1, "held2": 2, "deferred": 1}[spec.State]
-		if n := len(x.deliv[x.m1]); n > pre {
-			x.bad("C02 delivered again after accepted FIN", "message %s: FIN accepted, yet deliveries %v to %v", x.m1, x.deliv[x.m1], x.delivTo[x.m1])
+		// the FIN was accepted inside the window (possibly for a redelivery that also
+		// happened inside it); anything delivered once the window has closed is too late
+		if n := len(x.deliv[x.m1]) - x.postWin[x.m1]; n > 0 {
+			x.bad("C02 delivered again after accepted FIN", "message %s: FIN accepted in the window, yet %d later deliveries: %v to %v", x.m1, n, x.deliv[x.m1], x.delivTo[x.m1])
 		}
 	}
 	// (a) no loss: without a discarding operation, every message that was not FIN-accepted
@@ -542,8 +584,8 @@ func (x *microCtx) oracle() {
 		if spec.State != "none" && spec.State != "queued" {
 			want = 2
 		}
-		if hasOp("pub") {
-			want++
+		if hasOp("pub") && !hasOp("empty_topic") {
+			want++ // (a publish overlapping a topic empty may be discarded by it)
 		}
 		if len(x.deliv) < want {
 			x.bad("C01 C02 C08 message lost", "expected %d distinct messages to be delivered over the execution, saw %d: %s", want, len(x.deliv), x.delivSummary())
@@ -552,6 +594,35 @@ func (x *microCtx) oracle() {
 			d := DumpChannel(c)
 			if d.Depth != 0 || len(d.InFlight) != 0 || len(d.Deferred) != 0 {
 				x.bad("C01 C02 C08 drain did not converge", "after drain: %+v", d)
+			}
+		}
+	}
+	// (t) timeouts are never early: without an accepted REQ, a message is delivered again no
+	// sooner than msg_timeout (1 s here) after its previous delivery, and no sooner than
+	// msg_timeout after an accepted TOUCH. Arrival times can lag sends by the output-buffer
+	// timeout (250 ms), hence the slack.
+	const slack = int64(300 * time.Millisecond)
+	msgTimeout := int64(time.Second)
+	for id, ats := range x.delivAt {
+		if x.reqOK[id] > 0 {
+			continue
+		}
+		for i := 1; i < len(ats); i++ {
+			if gap := ats[i] - ats[i-1]; gap < msgTimeout-slack {
+				x.bad("C02 C04 redelivered before its timeout", "message %s delivered again %d ms after the previous delivery with no REQ (msg_timeout 1000 ms): attempts %v to %v", id, gap/1e6, x.deliv[id], x.delivTo[id])
+				break
+			}
+		}
+		if t, ok := x.touchOK[id]; ok {
+			// The TOUCH was accepted, so its sender held the message at that moment; a
+			// delivery to ANOTHER connection from the window on must therefore come after
+			// it, i.e. no sooner than msg_timeout later. (A redelivery to the toucher itself
+			// is ambiguous - the TOUCH may have been for that second hold - and is skipped.)
+			for i, at := range ats {
+				if i >= x.preWin[id] && x.delivTo[id][i] != x.touchBy[id] && at < t+msgTimeout-slack {
+					x.bad("C02 C04 accepted TOUCH not honoured", "message %s: TOUCH by %s accepted at +%d ms, yet delivered to %s at +%d ms (msg_timeout 1000 ms): attempts %v to %v", id, x.touchBy[id], (t-vrt.Epoch0)/1e6, x.delivTo[id][i], (at-vrt.Epoch0)/1e6, x.deliv[id], x.delivTo[id])
+					break
+				}
 			}
 		}
 	}
@@ -566,7 +637,7 @@ func (x *microCtx) oracle() {
 			x.bad("C02 redelivery without requeue or timeout", "%d redeliveries but requeue_count=%d timeout_count=%d; %s", extra, c.requeueCount, c.timeoutCount, x.delivSummary())
 		}
 		if s := CheckChannelStructure(c); s != "" {
-			x.bad("C02 C04 structure after drain: "+structClass(s), "%s", s)
+			x.anomalies = append(x.anomalies, "after drain: "+structClass(s))
 		}
 		x.checkClientCounts("after drain")
 		// C13 conservation (the drain FINs everything it gets; FINs that failed are retried
@@ -581,11 +652,24 @@ func (x *microCtx) oracle() {
 			_ = fin
 		}
 	}
-	// (i) discard semantics: m2 was at rest during the whole empty/delete call
-	if discardOp && x.m2ID() != "" {
-		// m2 may legitimately have been delivered before the window only in no state here
-		if n := len(x.deliv[x.m2ID()]); n > 0 && (x.emptied || x.deleted || x.tdeleted) {
-			x.bad("C08 discarded message delivered afterwards", "message m2 (%s) was at rest during the whole empty/delete call and was delivered afterwards: %v to %v", x.m2ID(), x.deliv[x.m2ID()], x.delivTo[x.m2ID()])
+	// (i) discard semantics, permissive form: m2 is never operated on by the scenario. If
+	// no delivery step touched it while the window was open (so it was at rest - queued, in
+	// flight or deferred - for the whole empty/delete call, which returned inside the
+	// window) it must not be delivered once the window has closed.
+	if discardOp && (x.emptied || x.deleted || x.tdeleted) {
+		if id := x.m2ID(); id != "" {
+			inWin := x.postWin[id] - x.preWin[id]
+			after := len(x.deliv[id]) - x.postWin[id]
+			// sends in the window that never showed up as a frame (the receiving connection
+			// was closed) may have been m2: then it was not at rest
+			seenWin := 0
+			for k, n := range x.postWin {
+				seenWin += n - x.preWin[k]
+			}
+			unseen := int(x.sendsWin) - seenWin
+			if inWin == 0 && unseen <= 0 && after > 0 {
+				x.bad("C08 discarded message delivered afterwards", "message m2 (%s) was at rest during the whole empty/delete call (deliveries before/in window: %d/%d) and was delivered %d time(s) after it returned: %v to %v", id, x.preWin[id], inWin, after, x.deliv[id], x.delivTo[id])
+			}
 		}
 	}
 	// (j) delete removes the files and disconnects the consumers
@@ -609,6 +693,28 @@ func (x *microCtx) oracle() {
 	if bts, err := stdos.ReadFile(x.w.Dir + "/nsqd.dat"); err == nil && strings.Contains(string(bts), "#ephemeral") {
 		x.bad("C08 ephemeral object in metadata", "%s", bts)
 	}
+}
+
+// totalSends sums message_count over every consumer connection the scenario has seen.
+func (x *microCtx) totalSends() uint64 {
+	seen := map[*clientV2]bool{}
+	if x.k1 != nil {
+		seen[x.k1] = true
+	}
+	if x.k2 != nil {
+		seen[x.k2] = true
+	}
+	x.w.N.tcpServer.conns.Range(func(k, v interface{}) bool {
+		if cl, ok := v.(*clientV2); ok {
+			seen[cl] = true
+		}
+		return true
+	})
+	var n uint64
+	for k := range seen {
+		n += k.MessageCount
+	}
+	return n
 }
 
 func (x *microCtx) m2ID() string {
